@@ -28,6 +28,8 @@ type insertion struct {
 	text string
 	// order among insertions at the same offset: lower first
 	ord int
+	// del bytes of the original are dropped at off (after inserting text)
+	del int
 }
 
 type site struct {
@@ -67,6 +69,8 @@ func main() {
 	var sites []site
 	pkgName := ""
 	mapKeysWrapped := 0
+	locksRewritten := 0
+	noLocks := os.Getenv("INSTR_NOLOCKS") != ""
 	for _, name := range files {
 		path := filepath.Join(dir, name)
 		src, err := os.ReadFile(path)
@@ -91,6 +95,23 @@ func main() {
 				pos := fset.Position(st.Pos())
 				sites = append(sites, site{id: id, file: name, line: pos.Line, fn: curFn, kind: stmtKind(st, kind)})
 				ins = append(ins, insertion{off: pos.Offset, text: fmt.Sprintf("_vfStep(%d); ", id), ord: 0})
+				// `X.Lock()` / `X.RLock()` as a statement becomes a cooperative try-lock loop, so that a
+				// task preempted inside a critical section does not hang the (single-threaded) simulation
+				if es, ok := st.(*ast.ExprStmt); ok && !noLocks {
+					if call, ok := es.X.(*ast.CallExpr); ok && len(call.Args) == 0 {
+						if sel, ok := call.Fun.(*ast.SelectorExpr); ok && (sel.Sel.Name == "Lock" || sel.Sel.Name == "RLock") {
+							try := "TryLock"
+							if sel.Sel.Name == "RLock" {
+								try = "TryRLock"
+							}
+							ins = append(ins, insertion{off: pos.Offset, text: "for !", ord: 1})
+							selOff := fset.Position(sel.Sel.Pos()).Offset
+							endOff := fset.Position(call.End()).Offset
+							ins = append(ins, insertion{off: selOff, text: try + "() { _vfBlocked() }", ord: 0, del: endOff - selOff})
+							locksRewritten++
+						}
+					}
+				}
 			}
 		}
 		var walk func(n ast.Node)
@@ -190,9 +211,12 @@ func main() {
 		var out bytes.Buffer
 		last := 0
 		for _, in := range ins {
+			if in.off < last {
+				die("overlapping rewrite in %s", name)
+			}
 			out.Write(src[last:in.off])
 			out.WriteString(in.text)
-			last = in.off
+			last = in.off + in.del
 		}
 		out.Write(src[last:])
 		// the result must still parse
@@ -205,8 +229,19 @@ func main() {
 	}
 
 	var hb bytes.Buffer
-	fmt.Fprintf(&hb, "// Code generated by /verif/instr. DO NOT EDIT.\n\npackage %s\n\nimport \"reflect\"\n\n", pkgName)
-	hb.WriteString(`// VfStep, when non-nil, is called before every statement of the library (simulation only).
+	fmt.Fprintf(&hb, "// Code generated by /verif/instr. DO NOT EDIT.\n\npackage %s\n\nimport (\n\t\"reflect\"\n\t\"runtime\"\n)\n\n", pkgName)
+	hb.WriteString(`// VfBlocked, when non-nil, is called when a try-lock loop could not take its lock (simulation only).
+var VfBlocked func()
+
+func _vfBlocked() {
+	if f := VfBlocked; f != nil {
+		f()
+		return
+	}
+	runtime.Gosched()
+}
+
+// VfStep, when non-nil, is called before every statement of the library (simulation only).
 var VfStep func(int32)
 
 // VfMapKeys, when non-nil, decides the order in which map keys are visited (simulation only).
@@ -235,6 +270,7 @@ type VfSite struct {
 }
 
 `)
+	fmt.Fprintf(&hb, "// VfLocksRewritten is the number of Lock()/RLock() statements made cooperative.\nconst VfLocksRewritten = %d\n\n", locksRewritten)
 	fmt.Fprintf(&hb, "// VfMapKeysWrapped is the number of MapKeys() calls wrapped.\nconst VfMapKeysWrapped = %d\n\n", mapKeysWrapped)
 	hb.WriteString("// VfSites is the site table, indexed by site id.\nvar VfSites = []VfSite{\n")
 	for _, s := range sites {
@@ -244,7 +280,7 @@ type VfSite struct {
 	if err := os.WriteFile(filepath.Join(dir, "zz_vf_hooks.go"), hb.Bytes(), 0o644); err != nil {
 		die("%v", err)
 	}
-	fmt.Printf("instr: %d files, %d step sites, %d MapKeys wrapped\n", len(files), len(sites), mapKeysWrapped)
+	fmt.Printf("instr: %d files, %d step sites, %d MapKeys wrapped, %d lock statements made cooperative\n", len(files), len(sites), mapKeysWrapped, locksRewritten)
 }
 
 func funcName(f *ast.FuncDecl) string {
